@@ -262,7 +262,9 @@ func genWorld(r *kit.Rand, m int, nPools int) ([]jPool, []jNode, map[int]bool) {
 				if r.Chance(1, 4) {
 					n.Pods = 1
 				}
+				n.Drifted = r.Chance(1, 3)
 			case mMulti, mSingle:
+				n.Drifted = r.Chance(1, 3)
 				n.Pods = r.Range(1, 2)
 				if r.Chance(1, 6) {
 					n.Pods = 0
@@ -700,8 +702,15 @@ type recMethod struct {
 	cands   []*disruption.Candidate
 	cmds    []disruption.Command
 	called  bool
+	ran     bool // the controller got as far as listing this method's candidates
 	err     error
 	before  func(cs []*disruption.Candidate) // runs just before the inner ComputeCommands (snapshots what the method will read)
+}
+
+// Class is asked for once per controller loop, when the method's candidates are listed.
+func (m *recMethod) Class() string {
+	m.ran = true
+	return m.Method.Class()
 }
 
 // SetNodePoolTotals keeps the wrapped method visible as a NodePoolTotalsSetter (balanced scoring).
@@ -763,6 +772,19 @@ func (s *roundState) post(r *kit.Rand) string {
 		panic(err)
 	}
 	return kit.GPair(gReason(reason), gObservedMapping(mp, s.w))
+}
+
+// loopMethod is one method of a controller loop in a round history.
+type loopMethod struct {
+	m            int
+	rec          *recMethod
+	dv           *delayedValidator
+	between      []jEvent
+	betweenTerms []string
+	cur          []jCand
+	choice       string
+	clockLast    bool
+	toWindow     bool
 }
 
 type methodSlot struct {
@@ -873,6 +895,7 @@ type jOp struct {
 	IDs         []int          `json:"command,omitempty"`
 	OK          bool           `json:"ok,omitempty"`
 	Withheld    bool           `json:"deletion_not_yet_observed_by_cluster_state,omitempty"`
+	LoopPos     string         `json:"position_in_controller_loop,omitempty"`
 }
 
 type caseR struct {
@@ -1083,71 +1106,105 @@ func runRounds(c *kit.Ctx, r *kit.Rand, nOps int) {
 			if repeated {
 				m, forceM = forceM, -1
 			}
-			var between []jEvent
-			var betweenTerms []string
-			dv := &delayedValidator{clk: w.clk}
-			var cur []jCand
-			var rec *recMethod
-			if m != mDrift && m != mStaticDrift {
-				for j := r.Intn(3); j > 0; j-- {
-					if e := genEnv(); e.Kind != "clock" {
-						between = append(between, e)
-					}
-				}
-				// the validation delay itself: the validator waits on the clock; it moves by 15 s, or
-				// further (to a window edge)
-				target := w.clk.Now().Add(15 * time.Second)
-				if e := genEnv(); e.Kind == "clock" && time.Unix(0, e.Time).After(target) {
-					target = time.Unix(0, e.Time)
-				}
-				between = append(between, jEvent{Kind: "clock", Time: target.UnixNano()})
-				dv.between = func() {
-					for _, e := range between[:len(between)-1] {
-						s.applyEvent(e)
-						betweenTerms = append(betweenTerms, s.envTerms(e)...)
-					}
-					// the candidates as the validator is about to see them (nothing but the clock moves after this)
-					w.faults.suspended = true
-					cur = w.toJCands(w.candidates(rec), pinned)
-					w.faults.suspended = false
-					e := between[len(between)-1]
-					s.applyEvent(e)
-					betweenTerms = append(betweenTerms, s.envTerms(e)...)
-				}
-			}
-			// methods are kept per world, as in the running controller (the consolidation methods cache
-			// "nothing to do" until the cluster changes)
-			if methods[m] == nil || (!repeated && r.Chance(1, 3)) {
-				methods[m] = &methodSlot{dv: &delayedValidator{clk: w.clk}}
-				methods[m].meth = w.newMethod(m, methods[m].dv, true)
-			}
-			slot := methods[m]
-			slot.dv.between, slot.dv.prop, slot.dv.out, slot.dv.schedulingRejected, slot.dv.noDelay = dv.between, nil, nil, false, false
-			dv = slot.dv
-			rec = &recMethod{Method: slot.meth}
-			choice := ""
+			// setup prepares one method of this controller loop: its recorder, its validator with the
+			// events that happen while the validator waits, and the hooks that snapshot what it reads
 			armPatch := false
-			rec.before = func(cs []*disruption.Candidate) {
-				if armPatch && len(cs) > 0 {
-					// the disruption taint cannot be set on one or two of the candidates
-					for k := 0; k < 2; k++ {
-						w.faults.patchNode[kit.Pick(r, cs).Name()] = 10 // more than the client-side retries
+			setup := func(m int, reuse, pre bool) *loopMethod {
+				L := &loopMethod{m: m}
+				if m != mDrift && m != mStaticDrift {
+					for j := r.Intn(3); j > 0; j-- {
+						if e := genEnv(); e.Kind != "clock" {
+							L.between = append(L.between, e)
+						}
+					}
+					if pre && r.Chance(1, 2) {
+						// while an earlier method waits, somebody closes a pool for every reason: its command
+						// is abandoned and the later methods of the same loop must see the closed budget
+						p := s.pools[r.Intn(len(s.pools))]
+						if p.ID != 9 {
+							L.between = append(L.between, jEvent{Kind: "budgets", Pool: p.ID, Budgets: []jBudget{{Nodes: "0"}}})
+						}
+					}
+					L.toWindow = pre && r.Chance(1, 3)
+					// the validation delay itself: the validator waits on the clock; it moves by 15 s, or
+					// further (to a window edge); within one loop time only moves forward
+					L.clockLast = true
+				}
+				// methods are kept per world, as in the running controller (the consolidation methods cache
+				// "nothing to do" until the cluster changes)
+				if methods[m] == nil || (!reuse && r.Chance(1, 3)) {
+					methods[m] = &methodSlot{dv: &delayedValidator{clk: w.clk}}
+					methods[m].meth = w.newMethod(m, methods[m].dv, true)
+				}
+				slot := methods[m]
+				L.dv = slot.dv
+				L.dv.between, L.dv.prop, L.dv.out, L.dv.schedulingRejected, L.dv.noDelay = nil, nil, nil, false, false
+				L.rec = &recMethod{Method: slot.meth}
+				if L.clockLast {
+					L.dv.between = func() {
+						for _, e := range L.between {
+							s.applyEvent(e)
+							L.betweenTerms = append(L.betweenTerms, s.envTerms(e)...)
+						}
+						// the candidates as the validator is about to see them (nothing but the clock moves after this)
+						w.faults.suspended = true
+						L.cur = w.toJCands(w.candidates(L.rec), pinned)
+						w.faults.suspended = false
+						target := w.clk.Now().Add(15 * time.Second)
+						if e := genEnv(); e.Kind == "clock" && time.Unix(0, e.Time).After(target) {
+							target = time.Unix(0, e.Time)
+						}
+						if L.toWindow && scheduleAt.After(w.clk.Now()) {
+							target = scheduleAt // a window scheduled for 11:00 opens during the wait
+						}
+						e := jEvent{Kind: "clock", Time: target.UnixNano()}
+						L.between = append(L.between, e)
+						s.applyEvent(e)
+						L.betweenTerms = append(L.betweenTerms, s.envTerms(e)...)
 					}
 				}
-				if m == mStaticDrift {
-					var groups []string
-					for _, p := range s.pools {
-						a, d, pd := w.cluster.NodePoolState.GetNodeCount(p.Name)
-						groups = append(groups, fmt.Sprintf("(%s, mkCounts %s %s %s %s)", kit.GZ(int64(p.ID)), kit.GZ(int64(a)), kit.GZ(int64(d)), kit.GZ(int64(pd)), kit.GZ(int64(reserved[p.ID]))))
+				L.rec.before = func(cs []*disruption.Candidate) {
+					if armPatch && len(cs) > 0 {
+						// the disruption taint cannot be set on one or two of the candidates
+						for k := 0; k < 2; k++ {
+							w.faults.patchNode[kit.Pick(r, cs).Name()] = 10 // more than the client-side retries
+						}
 					}
-					choice = "(ChStatic " + kit.GList(groups) + ")"
+					if m == mStaticDrift {
+						var groups []string
+						for _, p := range s.pools {
+							a, d, pd := w.cluster.NodePoolState.GetNodeCount(p.Name)
+							groups = append(groups, fmt.Sprintf("(%s, mkCounts %s %s %s %s)", kit.GZ(int64(p.ID)), kit.GZ(int64(a)), kit.GZ(int64(d)), kit.GZ(int64(pd)), kit.GZ(int64(reserved[p.ID]))))
+						}
+						L.choice = "(ChStatic " + kit.GList(groups) + ")"
+					}
+				}
+				return L
+			}
+			// One controller loop may run several methods: every method before the one that acts ends
+			// without a command, possibly after its 15 s validation wait, and the later ones must build
+			// their budget mapping from the cluster as it is THEN.
+			var plan []*loopMethod
+			if !repeated && r.Chance(1, 3) {
+				for pm := mEmptiness; pm < m; pm++ { // the controller's order: emptiness, static drift, drift, multi, single
+					if pm == mEmptiness || r.Chance(1, 3) {
+						plan = append(plan, setup(pm, false, true))
+					}
 				}
 			}
-			// faults: an API call of this reconcile fails
+			plan = append(plan, setup(m, repeated, false))
+			main := plan[len(plan)-1]
+			if len(plan) > 1 {
+				c.Count(fmt.Sprintf("R:loop=%d-methods", len(plan)))
+			}
+			// faults: an API call of this reconcile fails (single-method loops only)
 			fault := ""
 			fk := r.Intn(16)
 			if (m == mStaticDrift || m == mDrift) && r.Chance(1, 6) {
 				fk = 2 // these methods launch replacements
+			}
+			if len(plan) > 1 {
+				fk = 15
 			}
 			switch fk {
 			case 0:
@@ -1161,7 +1218,11 @@ func runRounds(c *kit.Ctx, r *kit.Rand, nOps int) {
 				w.faults.createClaim = 1
 				fault = "create-nodeclaim"
 			}
-			ctrl := disruption.NewController(w.clk, w.c, w.prov, w.cp, w.recorder, w.cluster, w.queue, clusterCost, disruption.WithMethods(rec))
+			var ms []disruption.Method
+			for _, L := range plan {
+				ms = append(ms, L.rec)
+			}
+			ctrl := disruption.NewController(w.clk, w.c, w.prov, w.cp, w.recorder, w.cluster, w.queue, clusterCost, disruption.WithMethods(ms...))
 			_, rerr := ctrl.Reconcile(w.ctx)
 			fired := false
 			if fault != "" {
@@ -1192,122 +1253,149 @@ func runRounds(c *kit.Ctx, r *kit.Rand, nOps int) {
 			}
 			w.faults.suspended = false
 			after := queued()
-			var newq []int
+			var allNew []int
 			for id := range after {
 				if !before[id] {
-					newq = append(newq, id)
+					allNew = append(allNew, id)
 				}
 			}
-			sort.Ints(newq)
-			jc := w.toJCands(rec.cands, pinned)
-			var proposed []int
-			if len(dv.prop) > 0 {
-				proposed = cmdIDs(dv.prop[:1])
-			} else {
-				proposed = cmdIDs(rec.cmds)
-			}
-			// what StartCommand was asked to start
-			final := cmdIDs(rec.cmds)
-			if m != mDrift && m != mStaticDrift {
-				final = cmdIDs(dv.out)
-			}
-			var startfail []int
-			if fault != "" {
-				inq := map[int]bool{}
-				for _, id := range newq {
-					inq[id] = true
+			sort.Ints(allNew)
+			// the methods that ran, in order; only the last one can have started a command
+			var ran []*loopMethod
+			for _, L := range plan {
+				if L.rec.ran {
+					ran = append(ran, L)
 				}
-				for _, id := range final {
-					if !inq[id] {
-						startfail = append(startfail, id)
+			}
+			if len(ran) == 0 {
+				ran = []*loopMethod{main} // the reconcile gave up before any method (not synced, an early error)
+			}
+			for li, L := range ran {
+				m, rec, dv := L.m, L.rec, L.dv
+				last := li == len(ran)-1
+				var newq []int
+				if last {
+					newq = allNew
+				}
+				jc := w.toJCands(rec.cands, pinned)
+				var proposed []int
+				if len(dv.prop) > 0 && m != mDrift && m != mStaticDrift {
+					proposed = cmdIDs(dv.prop[:1])
+				} else {
+					proposed = cmdIDs(rec.cmds)
+				}
+				// what StartCommand was asked to start
+				final := cmdIDs(rec.cmds)
+				if m != mDrift && m != mStaticDrift {
+					final = cmdIDs(dv.out)
+				}
+				var startfail []int
+				if fault != "" {
+					inq := map[int]bool{}
+					for _, id := range newq {
+						inq[id] = true
 					}
-				}
-			}
-			if m == mStaticDrift {
-				for _, cmd := range rec.cmds {
-					for _, cd := range cmd.Candidates {
-						reserved[w.poolID(cd.NodePool.Name)]++
-					}
-				}
-			}
-			if m == mSingle || m == mDrift {
-				for i := range jc {
-					jc[i].SimOK = len(proposed) > 0 && jc[i].Node == proposed[0]
-				}
-				// the method's internal order is not observable: put the proposed candidate first
-				sort.SliceStable(jc, func(i, j int) bool {
-					return len(proposed) > 0 && jc[i].Node == proposed[0] && jc[j].Node != proposed[0]
-				})
-			}
-			switch {
-			case m == mStaticDrift && choice != "":
-			case m == mEmptiness && rec.called && len(proposed) == 0 && wouldSelect(jc, rec.mapping, w):
-				// Emptiness returned early although an empty candidate had budget: its "already consolidated" cache
-				choice = "ChSkip"
-				c.Count("R:MEmptiness:skipped-as-consolidated")
-			case rerr != nil && len(final) == 0:
-				// the reconcile failed before anything was handed to the queue
-				choice = "ChSkip"
-			default:
-				choice = fmt.Sprintf("(ChK %d)", len(proposed))
-			}
-			if m == mStaticDrift && choice == "" {
-				choice = "(ChStatic [])"
-			}
-			for _, id := range newq {
-				s.nodes[id].Marked = true
-			}
-			// one queue entry per command (static drift starts several commands at once)
-			byCmd := map[*disruption.Command][]int{}
-			for _, id := range newq {
-				cmd := w.queue.ProviderIDToCommand[providerID(id)]
-				byCmd[cmd] = append(byCmd[cmd], id)
-			}
-			for _, id := range newq {
-				if ids, ok := byCmd[w.queue.ProviderIDToCommand[providerID(id)]]; ok && ids[0] == id {
-					cmdsInFlight = append(cmdsInFlight, ids)
-					if len(w.queue.ProviderIDToCommand[providerID(id)].Replacements) > 0 {
-						c.Count("R:command=with-replacement")
-						// look at the very next budget mapping: the candidates of a command that waits for
-						// its replacement must already consume budget
-						if !repeated {
-							forceM = m
+					for _, id := range final {
+						if !inq[id] {
+							startfail = append(startfail, id)
 						}
-					} else {
-						c.Count("R:command=delete-only")
 					}
 				}
+				if m == mStaticDrift {
+					for _, cmd := range rec.cmds {
+						for _, cd := range cmd.Candidates {
+							reserved[w.poolID(cd.NodePool.Name)]++
+						}
+					}
+				}
+				if m == mSingle || m == mDrift {
+					for i := range jc {
+						jc[i].SimOK = len(proposed) > 0 && jc[i].Node == proposed[0]
+					}
+					// the method's internal order is not observable: put the proposed candidate first
+					sort.SliceStable(jc, func(i, j int) bool {
+						return len(proposed) > 0 && jc[i].Node == proposed[0] && jc[j].Node != proposed[0]
+					})
+				}
+				choice := L.choice
+				switch {
+				case m == mStaticDrift && choice != "":
+				case m == mEmptiness && rec.called && len(proposed) == 0 && wouldSelect(jc, rec.mapping, w):
+					// Emptiness returned early although an empty candidate had budget: its "already consolidated" cache
+					choice = "ChSkip"
+					c.Count("R:MEmptiness:skipped-as-consolidated")
+				case rerr != nil && len(final) == 0:
+					// the reconcile failed before anything was handed to the queue
+					choice = "ChSkip"
+				default:
+					choice = fmt.Sprintf("(ChK %d)", len(proposed))
+				}
+				if m == mStaticDrift && choice == "" {
+					choice = "(ChStatic [])"
+				}
+				for _, id := range newq {
+					s.nodes[id].Marked = true
+				}
+				// one queue entry per command (static drift starts several commands at once)
+				byCmd := map[*disruption.Command][]int{}
+				for _, id := range newq {
+					cmd := w.queue.ProviderIDToCommand[providerID(id)]
+					byCmd[cmd] = append(byCmd[cmd], id)
+				}
+				for _, id := range newq {
+					if ids, ok := byCmd[w.queue.ProviderIDToCommand[providerID(id)]]; ok && ids[0] == id {
+						cmdsInFlight = append(cmdsInFlight, ids)
+						if len(w.queue.ProviderIDToCommand[providerID(id)].Replacements) > 0 {
+							c.Count("R:command=with-replacement")
+							// look at the very next budget mapping: the candidates of a command that waits for
+							// its replacement must already consume budget
+							if !repeated {
+								forceM = m
+							}
+						} else {
+							c.Count("R:command=delete-only")
+						}
+					}
+				}
+				if last && !repeated && len(proposed) == 0 && rec.called && (m == mMulti || m == mSingle) && r.Chance(1, 2) {
+					forceM = m // ask again right away: the method remembers that there was nothing to do
+				}
+				if repeated {
+					c.Count("R:" + methodNames[m] + ":asked-again-unchanged-cluster")
+				}
+				if dv.noDelay {
+					c.Count("R:" + methodNames[m] + ":validated-without-waiting")
+				}
+				if !last && len(proposed) > 0 {
+					c.Count("R:loop:earlier-method-waited-then-gave-up")
+				}
+				if len(newq) > 0 {
+					accepted++
+					c.Count("R:" + methodNames[m] + ":command-accepted")
+				} else if len(startfail) > 0 {
+					c.Count("R:" + methodNames[m] + ":start-failed")
+				} else if len(proposed) > 0 && dv.schedulingRejected {
+					c.Count("R:" + methodNames[m] + ":proposal-rejected-by-re-simulation")
+				} else if len(proposed) > 0 {
+					c.Count("R:" + methodNames[m] + ":proposal-rejected-by-validation")
+				} else if rec.called {
+					c.Count("R:" + methodNames[m] + ":no-proposal")
+				} else {
+					c.Count("R:" + methodNames[m] + ":no-candidates")
+				}
+				if len(startfail) > 0 && len(newq) > 0 {
+					c.Count("R:start=partially-marked")
+				}
+				post := "(Empty, [])"
+				if last {
+					post = s.post(r)
+				}
+				vok := !dv.schedulingRejected || m == mDrift || m == mStaticDrift
+				gops = append(gops, fmt.Sprintf("(ODisrupt %s %s %s %s %s %s [] %s %s, %s, %s, %s)", methodNames[m], kit.GListOf(jc, gCand), choice, kit.GBool(vok),
+					kit.GList(L.betweenTerms), kit.GListOf(L.cur, gCand), kit.GListOf(L.cur, gCand), gInts(startfail), gInts(newq), gObservedMapping(rec.mapping, w), post))
+				jops = append(jops, jOp{Op: "disrupt", Method: methodNames[m], Between: L.between, Cands: jc, Proposed: proposed, NewQueue: newq, Mapping: rec.mapping, Fault: fault, StartFailed: startfail, LoopPos: fmt.Sprintf("%d/%d", li+1, len(ran))})
 			}
-			if !repeated && len(proposed) == 0 && rec.called && (m == mMulti || m == mSingle) && r.Chance(1, 2) {
-				forceM = m // ask again right away: the method remembers that there was nothing to do
-			}
-			if repeated {
-				c.Count("R:" + methodNames[m] + ":asked-again-unchanged-cluster")
-			}
-			if dv.noDelay {
-				c.Count("R:" + methodNames[m] + ":validated-without-waiting")
-			}
-			if len(newq) > 0 {
-				accepted++
-				c.Count("R:" + methodNames[m] + ":command-accepted")
-			} else if len(startfail) > 0 {
-				c.Count("R:" + methodNames[m] + ":start-failed")
-			} else if len(proposed) > 0 && dv.schedulingRejected {
-				c.Count("R:" + methodNames[m] + ":proposal-rejected-by-re-simulation")
-			} else if len(proposed) > 0 {
-				c.Count("R:" + methodNames[m] + ":proposal-rejected-by-validation")
-			} else if rec.called {
-				c.Count("R:" + methodNames[m] + ":no-proposal")
-			} else {
-				c.Count("R:" + methodNames[m] + ":no-candidates")
-			}
-			if len(startfail) > 0 && len(newq) > 0 {
-				c.Count("R:start=partially-marked")
-			}
-			gops = append(gops, fmt.Sprintf("(ODisrupt %s %s %s %s %s %s [] %s %s, %s, %s, %s)", methodNames[m], kit.GListOf(jc, gCand), choice, kit.GBool(!dv.schedulingRejected),
-				kit.GList(betweenTerms), kit.GListOf(cur, gCand), kit.GListOf(cur, gCand), gInts(startfail), gInts(newq), gObservedMapping(rec.mapping, w), s.post(r)))
 			roundsSinceHold++
-			jops = append(jops, jOp{Op: "disrupt", Method: methodNames[m], Between: between, Cands: jc, Proposed: proposed, NewQueue: newq, Mapping: rec.mapping, Fault: fault, StartFailed: startfail})
 		case x < 9 && len(cmdsInFlight) > 0:
 			// the queue finishes a command (successfully if it needs no replacement, else it times out)
 			i := r.Intn(len(cmdsInFlight))
